@@ -17,6 +17,11 @@ def parseReq (j : Json) : R Req := do
     | _ => pure Decoded.malformed
   return ⟨← str j "method", dec⟩
 
+/-- requests with an optional direct change of the level (SetLevel / text path, outside the handler) just before each -/
+def serveAllPre (cur : Lvl) : List (Option Lvl × Req) → List (Nat × Lvl × Option Lvl)
+  | [] => []
+  | (pre, r) :: rs => let x := serve (pre.getD cur) r; x :: serveAllPre x.2.1 rs
+
 def handle (op : Json) : R Json := do
   let k ← str op "k"
   match k with
@@ -31,8 +36,10 @@ def handle (op : Json) : R Json := do
     let (okk, after) := unmarshalInto (fun _ => lo) (← int op "cur") t
     return obj [("ok", jbool okk), ("after", jint after)]
   | "http" =>
-    let reqs ← (arrD op "reqs").toList.mapM parseReq
-    let steps := serveAll (← int op "init") reqs
+    let reqs ← (arrD op "reqs").toList.mapM (fun j => do
+      let pre : Option Lvl := if has j "pre" then some (intD j "pre" 0) else none
+      pure (pre, ← parseReq j))
+    let steps := serveAllPre (← int op "init") reqs
     return obj [("steps", jarr (fun (s : Nat × Lvl × Option Lvl) =>
       obj [("status", jnat s.1), ("after", jint s.2.1), ("resp", jopt jint s.2.2)]) steps)]
   | _ => throw s!"unknown op {k}"
